@@ -482,6 +482,25 @@ Proof.
   intros a t Ha Ht. exact (Hat a [] t Ha (Forall2_nil _) Ht).
 Qed.
 
+(* the tensor-product core of _apply_kronecker_dense: all operands present *)
+Lemma conf_all_some : forall ops : list (operand R),
+  conf (map Some ops) (map (fun o => mcols R (omat R o)) ops).
+Proof. induction ops; simpl; auto. Qed.
+
+Lemma out_shape_all_some : forall ops : list (operand R),
+  out_shape (map Some ops) (map (fun o => mcols R (omat R o)) ops) = map (fun o => mrows R (omat R o)) ops.
+Proof. induction ops; simpl; auto. rewrite IHops. reflexivity. Qed.
+
+Lemma kron_dense_core_l : forall (ops : list (operand R)) (X : arr R) sT,
+  ashape R X = map (fun o => mcols R (omat R o)) ops ++ sT ->
+  ashape R (apply_tprod R rO radd rmul (map Some ops) X) = map (fun o => mrows R (omat R o)) ops ++ sT /\
+  forall a t, inr a (map (fun o => mrows R (omat R o)) ops) -> inr t sT ->
+    aat R (apply_tprod R rO radd rmul (map Some ops) X) (a ++ t) = tprod_spec (map Some ops) (aat R X) (a ++ t).
+Proof.
+  intros. destruct (apply_tprod_spec_l (map Some ops) X _ sT H (conf_all_some ops)) as [Hs Hat].
+  rewrite out_shape_all_some in *. split; assumption.
+Qed.
+
 (* ---------------- SubspaceOperator ---------------- *)
 Definition pbp_ent (P B : mat R) (r c : nat) : R :=
   sumn (mcols R P) (fun a => sumn (mcols R B) (fun b => ment R P r a * ment R B a b * ment R P c b)).
@@ -506,11 +525,11 @@ Proof.
     + rewrite sumn_swap. apply sumn_ext; intros a _. rewrite sumn_swap. reflexivity.
 Qed.
 
-Lemma subspace_fold : forall n tr PB x y r,
+Lemma subspace_fold : forall n (tr : bool) (PB : list (prod (mat R) (mat R))) (x y : nat -> R) (r : nat),
   (forall pb, In pb PB -> mrows R (fst pb) = n) ->
-  fold_left (fun y pb r =>
+  fold_left (fun (y : nat -> R) (pb : prod (mat R) (mat R)) (r : nat) =>
      radd (y r) (mv (fst pb) (mv (if tr then mT R (snd pb) else snd pb) (mv (mT R (fst pb)) x)) r)) PB y r =
-  y r + sumn n (fun c => fold_right (fun pb acc => pbp_ent (fst pb) (if tr then mT R (snd pb) else snd pb) r c + acc) 0 PB * x c).
+  y r + sumn n (fun c => fold_right (fun (pb : prod (mat R) (mat R)) acc => pbp_ent (fst pb) (if tr then mT R (snd pb) else snd pb) r c + acc) 0 PB * x c).
 Proof.
   induction PB; intros; simpl.
   - rewrite (sumn_ext n _ (fun _ => 0)), sumn_zero. ring. intros; ring.
@@ -527,7 +546,7 @@ Lemma subspace_spec_l : forall n tr PB x r,
   (forall pb, In pb PB -> mrows R (fst pb) = n) ->
   subspace_matvec R rO radd rmul tr PB x r = mv (subspace_dense n tr PB) x r.
 Proof.
-  intros. unfold subspace_matvec. rewrite (subspace_fold n) by assumption.
+  intros. unfold subspace_matvec. cbv zeta. rewrite (subspace_fold n) by assumption.
   unfold mv; simpl. ring.
 Qed.
 
